@@ -766,11 +766,12 @@ def describe(m, op):
     return k, _value_feature(op[2], op[3], None)
   if k == "copy_to":
     a, b = op[1], op[2]
+    lab = KIND[a] + "." + k if KIND[a] in ("Br", "Region", "Text") else k      # the classes that override copy_to
     if b is None:
-      return k, "None"
+      return lab, "None"
     if a == b:
-      return k, "self"
-    return k, ("same-kind" if KIND[a] == KIND[b] else "other-kind")
+      return lab, ("self-with-animation" if m.anims[a] else "self")
+    return lab, ("same-kind" if KIND[a] == KIND[b] else "other-kind")
   raise ValueError("unknown operation %r" % (op,))
 
 
